@@ -273,6 +273,14 @@ func (P) Exec(line string) string {
 			parts[i] = fmt.Sprintf("%d=%s", k, txo{uint64(e.Amount()), e.PkScript(), e.BlockHeight(), e.IsCoinBase()})
 		}
 		return "ok " + strings.Join(parts, ";")
+	case "bestwrap":
+		// 48 + 2^32-1 bytes, work sum length field 0xffffffff (former uint32 wrap, F-C15-d)
+		b := make([]byte, 48+(1<<32)-1)
+		b[44], b[45], b[46], b[47] = 0xff, 0xff, 0xff, 0xff
+		if err := blockchain.VerifDeserializeBestChainStateRaw(b); err != nil {
+			return "err"
+		}
+		return "ok"
 	case "v1row":
 		m, err := blockchain.VerifReadBlockTree([][]byte{unhex(f[2])})
 		if err != nil {
@@ -934,6 +942,26 @@ func (P) Generate(g *core.Gen) {
 	for _, code := range []uint64{0, 1, 6, 7, 8, 0x0a, 0x10, 1 << 20, 1 << 34, 1<<35 + 2, 1<<64 - 1, 1<<64 - 8, 1<<63 + 2} {
 		for _, tail := range []int{0, 1, 2, 40} {
 			rec(g, "unv0-code", true, "C15 unv0 "+hexTok(bytes.Join([][]byte{{0x01, 0x05}, vlqBytes(code), r.Bytes(tail)}, nil)))
+		}
+	}
+	// bitmap length against the remaining data: nb-1 / nb / nb+1 bytes left, and a full valid tail
+	for _, nb := range []int{1, 2, 15, 16, 17, 127, 128} {
+		for _, flags := range []uint64{2, 4, 6, 0} {
+			code := uint64(nb)<<3 | flags
+			if flags == 0 {
+				code = uint64(nb-1)<<3
+			}
+			pre := bytes.Join([][]byte{{0x01, 0x09}, vlqBytes(code)}, nil)
+			for _, left := range []int{nb - 1, nb, nb + 1, nb + 2, nb + 22} {
+				body := make([]byte, left)
+				if left > nb+1 { // amount 0, P2PKH type, hash bytes
+					body[nb] = 0x05
+				}
+				if flags == 0 && left >= nb {
+					body[nb-1] = 0x80 // keep the last bitmap byte non-zero: output 2+8*(nb-1)+7 unspent
+				}
+				rec(g, "unv0-bitmap-edge", true, "C15 unv0 "+hexTok(append(append([]byte{}, pre...), body...)))
+			}
 		}
 	}
 	for i := 0; i < g.N(500, 15000); i++ {
